@@ -47,6 +47,8 @@ type c11World struct {
 	verDc1   uint64 // version of dc's first revision
 	revDct1  string // dct: rev 1, then a local tombstone
 	verDct1  uint64
+	revDl1   string // dl: two revisions, no version vector (legacy document)
+	revDl2   string
 }
 
 func c11Setup(t testing.TB) *c11World {
@@ -115,6 +117,24 @@ func c11Setup(t testing.TB) *c11World {
 			if _, _, err = coll.DeleteDoc(ctx, id, DocVersion{RevTreeID: rev1}); err != nil {
 				t.Fatalf("setup %s tombstone: %v", id, err)
 			}
+		}
+	}
+	// documents as a pre-version-vector Sync Gateway left them: revision tree only, no _vv xattr ("dl" live at rev 2)
+	{
+		rev1, _, err := coll.Put(ctx, "dl", Body{"channels": []string{"A"}, "v": 1})
+		if err != nil {
+			t.Fatalf("setup dl: %v", err)
+		}
+		w.revDl1 = rev1
+		if w.revDl2, _, err = coll.Put(ctx, "dl", Body{BodyRev: rev1, "channels": []string{"A"}, "v": "local"}); err != nil {
+			t.Fatalf("setup dl rev 2: %v", err)
+		}
+		_, cas, err := coll.dataStore.GetXattrs(ctx, "dl", []string{base.VvXattrName})
+		if err != nil {
+			t.Fatalf("setup dl: read _vv: %v", err)
+		}
+		if err := coll.dataStore.RemoveXattrs(ctx, "dl", []string{base.VvXattrName}, cas); err != nil {
+			t.Fatalf("setup dl: remove _vv: %v", err)
 		}
 	}
 	// an externally written document (not yet imported)
@@ -196,6 +216,12 @@ func c11Ops() []c11Op {
 		{Name: "vv-pull-conflict-remote-tombstone", Run: c11PullVV("dc", true, true, RemoteWinsConflictResolver)},
 		{Name: "vv-pull-no-conflict", Run: c11PullVV("dc", false, false, DefaultLWWConflictResolutionType)},
 		{Name: "vv-pull-no-conflict-other-revtree", Run: c11PullVVOtherTree("dc")},
+		{Name: "vv-pull-onto-legacy-doc-continuing-it", Run: c11PullVVLegacy(false)},
+		{Name: "vv-pull-onto-legacy-doc-conflicting", Run: c11PullVVLegacy(true)},
+		{Name: "legacy-rev-push-onto-legacy-doc", Run: func(w *c11World) error {
+			_, _, err := w.v.coll.PutExistingRevWithBody(w.v.ctx, "dl", Body{"channels": []string{"A", "B"}, "v": "client"}, []string{"3-ccc", w.revDl2, w.revDl1}, true, ExistingVersionLegacyRev)
+			return err
+		}},
 		{Name: "vv-client-push-update", Run: c11ClientPushVV("dc", false, false, false)},
 		{Name: "vv-client-push-update-with-revtree-history", Run: c11ClientPushVV("dc", false, false, true)},
 		{Name: "vv-client-push-tombstone", Run: c11ClientPushVV("dc", true, false, false)},
@@ -344,6 +370,30 @@ func c11PullVV(id string, deleted, conflict bool, resolver ConflictResolverFunc)
 	}
 }
 
+// c11PullVVLegacy: a version-vector revision from another Sync Gateway arrives for a document that has no vector yet; its
+// revision-tree history continues the local current revision, or branches off the first one (conflict, resolved by the
+// default resolver against a vector made up from the local revision id)
+func c11PullVVLegacy(conflict bool) func(w *c11World) error {
+	return func(w *c11World) error {
+		history := []string{"3-bbb", w.revDl2, w.revDl1}
+		if conflict {
+			history = []string{"2-bbb", w.revDl1}
+		}
+		newDoc := &Document{ID: "dl", RevID: history[0]}
+		newDoc.UpdateBody(Body{"channels": []string{"A", "B"}, "v": "remote"})
+		incoming := &HybridLogicalVector{SourceID: "cmVtb3Rl", Version: uint64(time.Now().UnixNano()), PreviousVersions: HLVVersions{}}
+		newDoc.HLV = incoming
+		_, _, _, err := w.v.coll.PutExistingCurrentVersion(w.v.ctx, PutDocOptions{
+			NewDoc:           newDoc,
+			RevTreeHistory:   history,
+			NewDocHLV:        incoming,
+			ConflictResolver: NewConflictResolver(DefaultLWWConflictResolutionType, nil),
+			ISGRWrite:        true,
+		})
+		return err
+	}
+}
+
 // c11ClientPushVV is a revision pushed by a Couchbase Lite style client under the version-vector protocol (not a Sync
 // Gateway peer: no conflict resolver, the server generates the revision-tree id): its vector knows the current local
 // version (accepted) or only the first one (conflict: refused)
@@ -411,7 +461,7 @@ func c11Snapshot(w *c11World) string {
 	v.vb.H.Enabled = false
 	defer func() { v.vb.H.Enabled = was }()
 	out := map[string]any{}
-	for _, id := range []string{"d1", "datt", "g1", "n1", "n2", "n3", "ext1", "dc", "dct"} {
+	for _, id := range []string{"d1", "datt", "g1", "n1", "n2", "n3", "ext1", "dc", "dct", "dl"} {
 		raw, xattrs, cas, err := v.coll.dataStore.GetWithXattrs(ctx, id, []string{base.SyncXattrName, base.VvXattrName, base.GlobalXattrName})
 		if err != nil && len(xattrs) == 0 && raw == nil {
 			out["doc:"+id] = "missing"
@@ -650,7 +700,7 @@ func c11Execute(t testing.TB, op c11Op, faults []c11Fault) c11Run {
 	run.after = c11Snapshot(w)
 	w.principalSeqs(carried)
 	run.acctViol = map[string]string{}
-	w.v.accountSequences(run.acctViol, "C11/sequences", op.Name, []string{"d1", "datt", "g1", "n1", "n2", "n3", "ext1", "dc", "dct"}, carried)
+	w.v.accountSequences(run.acctViol, "C11/sequences", op.Name, []string{"d1", "datt", "g1", "n1", "n2", "n3", "ext1", "dc", "dct", "dl"}, carried)
 	return run
 }
 
